@@ -28,6 +28,7 @@ class Addr:
         self.expiry = None
         self.expires = None
         self.created = None
+        self._ip_key = None  # the address we're filed under in the map
 
     def update(self, *args):
         """
@@ -56,6 +57,13 @@ class Addr:
         if self.ip == '<error>':
             self._expire()
             return
+
+        # the map finds us by address too; follow address changes
+        if self._ip_key != ip:
+            if self._ip_key is not None and self.map.addr.get(self._ip_key) is self:
+                del self.map.addr[self._ip_key]
+            self._ip_key = ip
+            self.map.addr[ip] = self
 
         fmt = "%Y-%m-%d %H:%M:%S"
 
@@ -88,7 +96,9 @@ class Addr:
             # dropped early (Tor reported an error for this name)
             self.expiry.cancel()
         self.expiry = None
-        del self.map.addr[self.name]
+        for key in (self.name, self._ip_key):
+            if key is not None and self.map.addr.get(key) is self:
+                del self.map.addr[key]
         self.map.notify("addrmap_expired", *[self.name], **{})
 
 
